@@ -63,6 +63,8 @@ pub struct NodeSt<S: Sut> {
     pub held: Option<Held<S>>,
     pub issued: u32,
     pub shadow: Option<S>,
+    /// the in-memory state a crashed node had (with its knowledge set and the journal entries lost by the crash)
+    pub ghost: Option<(S, KSet, Vec<JEntry>)>,
     pub snap: Option<(Blob<S>, KSet)>,
     pub journal: Vec<JEntry>,
     pub skew: i64,
@@ -164,6 +166,7 @@ impl<S: Sut> World<S> {
                 held: None,
                 issued: 0,
                 shadow: None,
+                ghost: None,
                 snap: None,
                 journal: vec![],
                 skew: 0,
@@ -327,6 +330,17 @@ impl<S: Sut> World<S> {
                 }
             }
         }
+        if self.cfg.on("pending") && matches!(self.family, Family::Dotted(Shape::Set) | Family::Dotted(Shape::Map(_))) {
+            let exp = model::pending(&self.aops, k);
+            match pending_table(&st.dbg()) {
+                Some(t) => {
+                    if t != exp {
+                        return self.fail("pending", format!("node {} K={:x}: pending removes held {:?}, the removes whose context is not yet covered are {:?}", n, k, t, exp));
+                    }
+                }
+                None => return self.fail("pending", format!("node {}: the pending-remove table cannot be read off the Debug rendering {}", n, dq(st.dbg()))),
+            }
+        }
         if self.cfg.on("seq.order") {
             if let Obs::Seq { vals, .. } = &obs {
                 if let Err(e) = self.seq_oracle.observe(vals) {
@@ -403,8 +417,12 @@ impl<S: Sut> World<S> {
     pub fn exec(&mut self, ev: &Ev) -> Res {
         self.step += 1;
         let r = self.exec_inner(ev);
-        if let Ok(true) = r {
-            self.stats.events += 1;
+        match r {
+            Ok(true) => self.stats.events += 1,
+            // an event that does not apply leaves no trace: steps count applied events only, so that a
+            // recorded history replays with the same step numbers
+            Ok(false) => self.step -= 1,
+            Err(_) => {}
         }
         r
     }
@@ -474,24 +492,27 @@ impl<S: Sut> World<S> {
                 {
                     let ops = &self.ops;
                     let x = &mut self.nodes[me];
-                    x.state = None;
+                    let old = x.state.take().unwrap();
                     x.held = None;
                     x.shadow = None;
                     x.last_obs = None;
                     // un-synced tail: entries after the node's last own op may be lost
+                    let mut lost_entries = vec![];
                     while lost < *lose_tail {
                         match x.journal.last() {
                             Some(JEntry::Op(ix)) if ops[*ix].author != me => {
-                                x.journal.pop();
+                                lost_entries.push(x.journal.pop().unwrap());
                                 lost += 1;
                             }
                             Some(JEntry::State(_)) => {
-                                x.journal.pop();
+                                lost_entries.push(x.journal.pop().unwrap());
                                 lost += 1;
                             }
                             _ => break,
                         }
                     }
+                    lost_entries.reverse();
+                    x.ghost = Some((old, x.k, lost_entries));
                 }
                 self.stats.journal_lost += lost as u64;
                 self.stats.crashes += 1;
@@ -628,7 +649,7 @@ impl<S: Sut> World<S> {
                 Ok(Verdict::Ok) => {}
                 Ok(v) => {
                     if !(self.cfg.misuse && matches!(desc, Desc::Lww { reuse_marker: true, .. })) {
-                        return self.fail("validate.origin", format!("node {} rejects the op it just produced through the API: {} -> {:?}", node, op_dbg, v));
+                        return self.fail("validate.origin", format!("node {} rejects the op it just produced through the API: {} -> {}", node, op_dbg, v.show()));
                     }
                 }
                 Err(p) => return self.fail("validate.origin", format!("validate_op panicked: {}", p)),
@@ -667,7 +688,8 @@ impl<S: Sut> World<S> {
         }
         let ix = self.ops.len();
         let is_rm = aop.is_remove();
-        if !self.causally_closed(k_gen) {
+        if !self.causally_closed(k_gen) || !self.causally_closed(k_read) {
+            // the edit was issued at, or from a read of, a replica whose knowledge is not causally closed
             self.stats.noncausal_gen += 1;
         }
         self.ops.push(OpRec { tag, author: node, seq: self.nodes[node].issued + 1, op, wire_op, desc: desc.clone() });
@@ -750,13 +772,13 @@ impl<S: Sut> World<S> {
         if self.cfg.on("validate.deliver") {
             let st = self.nodes[node].state.as_ref().unwrap();
             let v = guard(|| st.validate_op(&op));
-            let exp_ok = crate::probes::expect_validate_ok(&self.family, &self.aops, k, ix);
+            let exp_ok = crate::probes::expect_validate_ok(&self.family, &self.aops, k, ix, self.nodes[node].last_obs.as_ref());
             match (v, exp_ok) {
                 (Ok(Verdict::Ok), Some(true)) | (Ok(Verdict::Err { .. }), Some(false)) | (Ok(_), None) => {}
                 (Ok(v), Some(e)) => {
                     return self.fail(
                         "validate.deliver",
-                        format!("node {} K={:x}: validate_op({}) = {:?}, expected {}", node, k, S::op_dbg(&op), v, if e { "Ok (no update of its actor is skipped)" } else { "an ordering error (a gap)" }),
+                        format!("node {} K={:x}: validate_op({}) = {}, expected {}", node, k, S::op_dbg(&op), v.show(), if e { "Ok (no update of its actor is skipped)" } else { "an ordering error (a gap)" }),
                     )
                 }
                 (Err(p), _) => return self.fail("validate.deliver", format!("validate_op panicked: {}", p)),
@@ -783,9 +805,8 @@ impl<S: Sut> World<S> {
             let x = &mut self.nodes[node];
             x.k |= bit(ix);
             x.pending.remove(&ix);
-            if !dup {
-                x.journal.push(JEntry::Op(ix));
-            }
+            // the journal is a write-ahead log of everything applied, redundant deliveries included
+            x.journal.push(JEntry::Op(ix));
         }
         self.stats.delivers += 1;
         if dup {
@@ -893,6 +914,56 @@ impl<S: Sut> World<S> {
             x.stalled = false;
         }
         self.stats.restarts += 1;
+        // C19: the restored replica, brought up to date with what the crash lost, is the replica that crashed
+        if let Some((ghost, gk, lost)) = self.nodes[node].ghost.take() {
+            if !stale && self.cfg.on("restart.ghost") {
+                let mut r = self.nodes[node].state.clone().unwrap();
+                let mut rk = self.nodes[node].k;
+                for e in lost.iter() {
+                    match e {
+                        JEntry::Op(ix) => {
+                            let op = self.ops[*ix].wire_op.clone();
+                            if let Err(p) = guard(|| r.apply(op)) {
+                                return self.fail("panic.apply", format!("node {}: re-delivery after restart panicked: {}", node, p));
+                            }
+                            rk |= bit(*ix);
+                        }
+                        JEntry::State(g) => {
+                            if let Some(f) = self.flights.get(g) {
+                                let inc = self.decode(&f.blob)?;
+                                let fk = f.k;
+                                if let Err(p) = guard(|| r.merge(inc)) {
+                                    return self.fail("panic.merge", format!("node {}: re-merge after restart panicked: {}", node, p));
+                                }
+                                rk |= fk;
+                            }
+                        }
+                    }
+                }
+                if rk == gk {
+                    let (o1, o2) = (guard(|| r.obs()), guard(|| ghost.obs()));
+                    match (o1, o2) {
+                        (Ok(a), Ok(b)) => {
+                            if a != b {
+                                return self.fail("restart.ghost", format!("node {} restored from disk reads differently from the replica that crashed\n  restored: {}\n  crashed : {}", node, a.show(), b.show()));
+                            }
+                        }
+                        (Err(p), _) | (_, Err(p)) => return self.fail("restart.ghost", format!("node {}: reading the restored replica panicked: {}", node, p)),
+                    }
+                    match guard(|| r.same(&ghost)) {
+                        Ok(true) => {}
+                        Ok(false) => {
+                            return self.fail("restart.ghost", format!("node {} restored from disk is not == to the replica that crashed\n  restored: {}\n  crashed : {}", node, dq(r.dbg()), dq(ghost.dbg())))
+                        }
+                        Err(p) => return self.fail("restart.ghost", format!("node {}: == between restored and crashed replica panicked: {}", node, p)),
+                    }
+                    if lost.is_empty() && self.cfg.json_wire {
+                        // from now on the never-serialised twin receives the same events
+                        self.nodes[node].shadow = Some(ghost);
+                    }
+                }
+            }
+        }
         self.check_node(node)?;
         Ok(true)
     }
@@ -1025,4 +1096,86 @@ pub fn canon_json(v: &serde_json::Value) -> String {
 
 pub fn is_remove_like(a: &AOp) -> bool {
     matches!(a.info, AInfo::Dotted { leaf: Leaf::SetRm { .. }, .. } | AInfo::Dotted { leaf: Leaf::KeyRm { .. }, .. } | AInfo::ListDel { .. })
+}
+
+/// The pending-remove table of a top-level Orswot / Map, read off the derived Debug rendering (there is
+/// no public accessor and serde_json cannot serialise a non-empty table, F7). None = unparsable.
+pub fn pending_table(dbg: &str) -> Option<BTreeMap<Clk, BTreeSet<u8>>> {
+    // locate `deferred: {` at brace depth 1 of the outermost struct
+    let b = dbg.as_bytes();
+    let mut depth = 0i32;
+    let mut start = None;
+    let key = b"deferred: {";
+    let mut i = 0;
+    while i < b.len() {
+        if depth == 1 && b[i..].starts_with(key) {
+            start = Some(i + key.len());
+        }
+        match b[i] {
+            b'{' => depth += 1,
+            b'}' => depth -= 1,
+            _ => {}
+        }
+        i += 1;
+    }
+    let start = start?;
+    // content up to the matching brace
+    let mut d = 1i32;
+    let mut end = start;
+    while end < b.len() {
+        match b[end] {
+            b'{' => d += 1,
+            b'}' => {
+                d -= 1;
+                if d == 0 {
+                    break;
+                }
+            }
+            _ => {}
+        }
+        end += 1;
+    }
+    let mut rest = &dbg[start..end];
+    let mut out: BTreeMap<Clk, BTreeSet<u8>> = BTreeMap::new();
+    loop {
+        rest = rest.trim_start_matches(|c: char| c == ',' || c == ' ');
+        if rest.is_empty() {
+            break;
+        }
+        let p = "VClock { dots: {";
+        if !rest.starts_with(p) {
+            return None;
+        }
+        rest = &rest[p.len()..];
+        let close = rest.find('}')?;
+        let mut clk = Clk::new();
+        for pair in rest[..close].split(',') {
+            let pair = pair.trim();
+            if pair.is_empty() {
+                continue;
+            }
+            let mut it = pair.split(':');
+            let a: u8 = it.next()?.trim().parse().ok()?;
+            let n: u64 = it.next()?.trim().parse().ok()?;
+            clk.insert(a, n);
+        }
+        rest = &rest[close + 1..];
+        let p2 = " }: {";
+        if !rest.starts_with(p2) {
+            return None;
+        }
+        rest = &rest[p2.len()..];
+        let close = rest.find('}')?;
+        let mut ms = BTreeSet::new();
+        for m in rest[..close].split(',') {
+            let m = m.trim();
+            if m.is_empty() {
+                continue;
+            }
+            ms.insert(m.parse::<u8>().ok()?);
+        }
+        rest = &rest[close + 1..];
+        out.entry(clk).or_default().extend(ms);
+    }
+    Some(out)
 }
